@@ -57,6 +57,9 @@ type memRig struct {
 	mintDay   uint64 // day of the latest finalized mint
 	purge     bool   // a candidate opened a round of its own: pools must be purged
 	ownAccept bool   // build acceptance transactions without the node's builder when it refuses
+	// beforeMint, when set, runs after the valid mint of the day has been built and signed and before it is
+	// finalized (forbidden variants of it are tried here)
+	beforeMint func(tx *common.VersionedTransaction, elected *memIdent)
 	seq       int
 }
 
@@ -750,6 +753,22 @@ func (m *memRig) mint() bool {
 		return false
 	}
 	tx = signed.AsVersioned()
+	if m.beforeMint != nil {
+		m.beforeMint(tx, who)
+		if m.c.Halt {
+			return false
+		}
+		if m.now()/uint64(time.Hour) != ts/uint64(time.Hour) {
+			// the variants took simulated time: rebuild for the current instant (same day, same batch)
+			ts = m.now()
+			if rebuilt := ref.Node.SimBuildMint(ts); rebuilt != nil && ref.Node.SimElect(common.TransactionTypeMint, ts) == elected {
+				signed := &common.SignedTransaction{Transaction: rebuilt.Transaction}
+				if err := signed.SignRaw(who.signer.PrivateSpendKey); err == nil {
+					tx = signed.AsVersioned()
+				}
+			}
+		}
+	}
 	it := m.placeOn(elected, tx, true)
 	if it == nil || !m.settle(it, 20*time.Second) {
 		m.r.out.Probes["valid_mint_not_applied"]++
